@@ -376,8 +376,9 @@ inductive Plan (κ : Type) where
   deriving Repr, DecidableEq
 
 /-- `predict` / `predict_proba` / `predict_freq`.  `origFitted`: was the classifier handed to
-`__init__` already fitted.  In the speed-up branch without `idx_` all three methods return
-`self.clf.predict_proba(...)`. -/
+`__init__` already fitted.  In the speed-up branch without `idx_` the object handed to `__init__`
+answers with the same method (`self.clf.<kind>(self.X[idx])`; repaired in /repo commit 1805c2fd —
+before, all three methods returned `self.clf.predict_proba(...)`, see `Ska.C19.Regressions`). -/
 def predictPlan {C : Type} (cfg : Cfg L W) (origFitted : Bool) (s : St C L W) (pre : Tab κ)
     (kind : Kind) (q : List Int) : Except Err (Plan κ) :=
   if cfg.speed then
@@ -389,7 +390,7 @@ def predictPlan {C : Type} (cfg : Cfg L W) (origFitted : Bool) (s : St C L W) (p
     | none =>
       match mapOpt (normIdx cfg.n) q with
       | none => .error .index
-      | some qs => if origFitted then .ok (.orig .proba qs) else .error .notFitted
+      | some qs => if origFitted then .ok (.orig kind qs) else .error .notFitted
   else
     match mapOpt (normIdx cfg.n) q with
     | none => .error .index
